@@ -79,36 +79,33 @@ def udq_point(q, d, v):
 
 
 def inv_of(mk, isse, d, X):
-    """mk(X).inv(); the 2-D inverses build their result with a *checking* constructor, so with symbols they are
-    run under the shadow valuation of an exact group element"""
-    if d == 2 and isinstance(np.asarray(X).flatten()[0], sympy.Expr):
-        concolic.VAL.clear()
-        concolic.PATH.clear()
-        R = sympy.Rational
-        vals = [R(3, 5), R(-4, 5), R(1, 3), R(4, 5), R(3, 5), R(1, 7), 0, 0, 1] if isse else [R(3, 5), R(-4, 5), R(4, 5), R(3, 5)]
-        for s_, v_ in zip(np.asarray(X, dtype=object).flatten(), vals):
-            concolic.VAL[s_] = v_
-        with concolic.object_alloc():
-            return mk(X).inv()
+    """mk(X).inv()  (since fix 1c511ed the 2-D inverses build their result with check=False like the 3-D ones, so they
+    run on symbols as they are: no shadow valuation, no path condition)"""
     return mk(X).inv()
 
 
 def minv_of(cls, isse, d, mats):
-    """cls([X0, X1, ...], check=False).inv()  -- the MULTI-valued branch of inv(); 2-D: shadow valuation of exact group
-    elements for every value (the checking constructor), as in inv_of"""
+    """cls([X0, X1, ...], check=False).inv()  -- the MULTI-valued branch of inv().
+    SE2 only: that branch iterates `for x in self`, and SMUserList.__getitem__ re-validates every element with a checking
+    constructor.  With symbols this needs (i) the last row given literally as (0, 0, 1) (the test `T[2,:] == [0,0,1]` is
+    structural on SymPy objects), so the symbolic last row of each input is replaced by the constants -- the trace is about
+    matrices whose last row is (0,0,1) and ignores the inputs' last rows; (ii) a shadow valuation of exact rotations to
+    decide isR (path condition: the rotation block passes the validity test)."""
     mats = list(mats)
-    if d == 2 and isinstance(np.asarray(mats[0]).flatten()[0], sympy.Expr):
+    if cls is SE2 and isinstance(np.asarray(mats[0]).flatten()[0], sympy.Expr):
         concolic.VAL.clear()
         concolic.PATH.clear()
         R = sympy.Rational
         rots = [(R(3, 5), R(4, 5)), (R(5, 13), R(-12, 13)), (R(8, 17), R(15, 17))]
+        lit = []
         for k, X in enumerate(mats):
             c, s_ = rots[k % 3]
-            vals = [c, -s_, R(1, 3) + k, s_, c, R(1, 7) - k, 0, 0, 1] if isse else [c, -s_, s_, c]
-            for sym, v_ in zip(np.asarray(X, dtype=object).flatten(), vals):
+            for sym, v_ in zip(np.asarray(X, dtype=object).flatten(), [c, -s_, R(1, 3) + k, s_, c, R(1, 7) - k, 0, 0, 1]):
                 concolic.VAL[sym] = v_
-        with concolic.object_alloc():
-            return cls(mats, check=False).inv()
+            Xl = np.array(X, dtype=object)
+            Xl[2, :] = [0, 0, 1]
+            lit.append(Xl)
+        return cls(lit, check=False).inv()
     return cls(mats, check=False).inv()
 
 
@@ -160,24 +157,19 @@ def build(ctx):
         # ---- composition and inverse (the group side of the compatibility laws)
         g.trace(f'tr_{cn}_mul', [('X', M), ('Y', M)], (lambda mk: lambda X, Y: (mk(X) * mk(Y)).A)(mk))
         # X.inv() * v  (the inverse as a matrix too for SE(n); the SO(n) inverse is a bare transposition, no arithmetic to trace)
-        smp = (lambda cn, d: lambda rng: rand_pose_mats(rng, cn, 1, 0.1, 10) + [rng.normal(size=d)])(cn, d)
-        note2 = ('SO2.inv/SE2.inv re-validate their result in the constructor: traced under the shadow valuation of an '
-                 'exact group element (path condition: the validity test passes)') if d == 2 else ''
+        note2 = ''
         g.trace(f'tr_{cn}_invv', [('X', M), ('v', V)], (lambda mk, isse, d: lambda X, v: inv_of(mk, isse, d, X) * v)(mk, isse, d),
-                sampler=smp, note=note2)
+                note=note2)
         if isse:
             g.trace(f'tr_{cn}_inv', [('X', M)], (lambda mk, isse, d: lambda X: inv_of(mk, isse, d, X).A)(mk, isse, d),
-                    sampler=(lambda cn: lambda rng: rand_pose_mats(rng, cn, 1, 0.1, 10))(cn), note=note2)
+                    note=note2)
         # multi-valued inverse (a separate branch of inv()): column k of X.inv() * v for a two-valued X
         smp2 = (lambda cn, d: lambda rng: rand_pose_mats(rng, cn, 2, 0.1, 10) + [rng.normal(size=d)])(cn, d)
         for k in range(2):
-            if cn == 'SE2':
-                # SE2.inv iterates `for x in self`, whose __getitem__ re-validates each symbolic element with a checking
-                # constructor that the tracer cannot get through; the multi-valued SE2 inverse is covered by the oracle only
-                break
             g.trace(f'tr_{cn}_minv2_c{k}', [('X0', M), ('X1', M), ('v', V)],
                     (lambda cls, isse, d, k: lambda X0, X1, v: (minv_of(cls, isse, d, [X0, X1]) * v)[:, k])(cls, isse, d, k),
-                    sampler=smp2, note=note2)
+                    sampler=smp2, note=('SE2: elements are re-validated by __getitem__ while iterating; traced with the last rows '
+                                        'literally (0,0,1) and under a shadow valuation of exact rotations') if cn == 'SE2' else '')
     # ---- homogeneous-coordinate function route
     g.trace('tr_homtrans3', [('X', 'M44'), ('v', 'V3')], base.homtrans)
     g.trace('tr_homtrans2', [('X', 'M33'), ('v', 'V2')], base.homtrans)
@@ -653,7 +645,7 @@ def udq_route(ctx, Xm, p, want, tX, band, rep):
         ctx.fail(f'oracle:quaternion-routes:r2q-{band}', f"UnitDualQuaternion route differs from X * p by {e_full:.3g} (relative) for a rotation {band}", rep)
     elif e_rot <= (1e-6 if band else REL) and tX > REL * sc:
         # the defect repaired by fix 0a28e8d (wrong conjugate): must stay a VIOLATION if it ever comes back
-        ctx.fail('oracle:SE3:route-dual-quaternion:translation-lost', f"UnitDualQuaternion(X) * p = {got.tolist()} equals R p; X * p = R p + t = {want.tolist()}: "
+        ctx.fail('oracle:SE3:route-dual-quaternion:regression-0a28e8d-translation-lost', f"UnitDualQuaternion(X) * p = {got.tolist()} equals R p; X * p = R p + t = {want.tolist()}: "
                  "the translation is lost", rep)
     else:
         ctx.fail('oracle:SE3:route-dual-quaternion:value', f"UnitDualQuaternion(X) * p = {got.tolist()} but X * p = {want.tolist()} "
@@ -667,8 +659,9 @@ def run(ctx):
                 "(cell or law, input) signature")
     ctx.trusted_extra = ["hand model theories/Model/C06_Dispatch.v of the isinstance/shape dispatch in SMPose.__mul__ "
                          "(super_pose.py:956-994), tied by exhaustive grid correspondence (vm_compute vs implementation) on every run",
-                         "tr_UDQ_v is one concolic path (unit-norm validity test of the UnitQuaternion constructor passes); its path "
-                         "condition is not emitted, the theorems about it assume |q| = 1"]
+                         "tr_UDQ_v and tr_SE2_minv2_c* are single concolic paths (validity test of the UnitQuaternion constructor / of "
+                         "SMUserList.__getitem__ passes); their path conditions are not emitted, the theorems about them assume "
+                         "|q| = 1 / use them on SE(2) members"]
     with ctx.timed('regenerate'):
         g = build(ctx)
         path = ctx.write_gen(MOD + '.v', g.coq_text())
